@@ -14,11 +14,14 @@ VARIABLE l
 Init == l \in 1..Len(T)
 Next == UNCHANGED l
 Spec == Init /\ [][Next]_l
-Obs(c) == IF c.left > 0 /\ c.err # "" /\ c.fault \in {"patch", "sig"} THEN {"TasksLeftBehindAfterAConsumerFailed"} ELSE {}
+Obs(c) == IF c.left > 0 /\ c.err # "" /\ c.fault \in {"patch", "sig", "transient"} THEN {"TasksLeftBehindAfterAConsumerFailed"} ELSE {}
 Odd(c) == (IF c.err = "" /\ c.left > 0 THEN {"NilMeansAllDone"} ELSE {})
      \cup (IF c.err # "" /\ ~c.fired THEN {"ErrOnlyIfFault"} ELSE {})
      \cup (IF c.fault = "source" /\ c.left > 0 THEN {"UpstreamErrorIsClean"} ELSE {})
      \cup (IF c.fault = "source" /\ c.fired /\ c.err = "" THEN {"UpstreamErrorIsReported"} ELSE {})
+\* (ComputeDiff flushes its pending block-range op in a deferred function that assigns the named result: a writer
+\*  whose error is NOT sticky could in principle turn an earlier error into nil. Not observed.)
+Masked(c) == IF c.fault = "transient" /\ c.fired /\ c.err = "" /\ c.rebuilds # "yes" THEN {"NilReturnWithAPatchThatDoesNotRebuild"} ELSE {}
 Report == Obs(T[l]) = {} \/ PrintT(<<"OBS", l, Obs(T[l])>>)
-ReportOdd == Odd(T[l]) = {} \/ PrintT(<<"ODD", l, Odd(T[l])>>)
+ReportOdd == Odd(T[l]) \cup Masked(T[l]) = {} \/ PrintT(<<"ODD", l, Odd(T[l]) \cup Masked(T[l])>>)
 =============================================================================
